@@ -44,14 +44,19 @@ MIX = ['MIT', 'CTD', 'UCTD', 'KC-BARE']
 _REG = {}
 
 
-def _region(n, combo, grid):
-    key = (n, combo, grid)
+def _region(n, combo, grid, bare=None):
+    key = (n, combo, grid, bare)
     if key not in _REG:
         sg = None
         if grid:
             sg = {'corr': None, 'corr_coeff': None, 'loss_coeff': 0.9, 'axial_positions': [0.05, 0.1], 'solidity': None}
+        kw = {}
+        if bare is not None:
+            # bare-rod bundle: wire diameter zero, wire pitch either zero or left at a positive value (both spellings are
+            # accepted by the reader and by check_correlation)
+            kw = {'dims': dict(fixtures.bundle_dims(n, 1), Dw=0.0), 'H': bare}
         r = fixtures.make_rodded(n, 1, fr=1.0, corr=(combo[1], combo[0], combo[2]), coolant=fixtures.fixed_material(),
-                                 duct=fixtures.duct_material(), spacer_grid=sg)
+                                 duct=fixtures.duct_material(), spacer_grid=sg, **kw)
         r.z = [0.0, 0.2]
         _REG[key] = r
     import copy
@@ -65,7 +70,7 @@ def body_eval(env):
     n = env.params['n_ring']
     core.FEAS_TIMEOUT_MS = 1500
     with env.patch(MODS):
-        r = _region(n, combo, env.params.get('grid', False))
+        r = _region(n, combo, env.params.get('grid', False), env.params.get('bare'))
         # Re = (m/A) De / mu  with mu symbolic:  Re in (10, 1e6)
         G = r.int_flow_rate / r.bundle_params['area'] * r.bundle_params['de']
         mu = env.real('viscosity', lo=float(G) / 1e6, hi=float(G) / 10.0, nominal=float(G) / 2000.0)
@@ -259,6 +264,13 @@ def instances(tier):
             heavy = c[0] in ('CTD', 'UCTD')
             inst.append(dict(label='eval[fs=%s,ff=%s,mix=%s,rings=%d]' % (c + (n,)), body=body_eval, params={'combo': c, 'n_ring': n},
                              max_paths=400, max_depth=(6 if heavy else 10) if tier == 'quick' else (8 if heavy else 16), timeout_ms=15000))
+    # (friction correlations that declare themselves not applicable to bare rods -- ENG, REH, NOV -- stop with the error exit)
+    for c in (('CTD', 'CTD', 'CTD'), ('UCTD', 'UCTD', 'UCTD'), ('UCTD', 'CTD', 'UCTD'), ('CTD', 'CTD', 'KC-BARE')):
+        for H in (0.0, 0.2):
+            heavy = c[0] in ('CTD', 'UCTD')
+            inst.append(dict(label='eval[fs=%s,ff=%s,mix=%s,bare rods (wire diameter 0, wire pitch %g)]' % (c + (H,)), body=body_eval,
+                             params={'combo': c, 'n_ring': 3, 'bare': H}, max_paths=400,
+                             max_depth=(6 if heavy else 10) if tier == 'quick' else (8 if heavy else 16), timeout_ms=15000))
     for c in (('CTD', 'CTD', 'CTD'), ('UCTD', 'UCTD', 'UCTD'), ('MIT', 'ENG', 'MIT')):
         for n in ((2, 3) if tier == 'quick' else (2, 3, 5, 9)):
             inst.append(dict(label='mixing[fs=%s,ff=%s,mix=%s,rings=%d]' % (c + (n,)), body=body_mixing, params={'combo': c, 'n_ring': n},
